@@ -106,11 +106,17 @@ def run(ctx, rep):
 
 # ---------------------------------------------------------------------------------------------------------------------
 
+STACK_VOCAB = ("left", "right", "product", "pop", "push", "as_left", "as_right", "as_product", "bound", "from_padded_bits", "from_compact_bits",
+               "has_padding", "unit", "next", "prune", "to_value", "bit_width")
+
+
 def sumtype(F, rep):
     n_sites = 0
-    for f in sorted(F.fns.values(), key=lambda x: x.path):
-        if not f.path.startswith("simplicity::"):
+    for f0 in sorted(F.fns.values(), key=lambda x: x.path):
+        if not f0.path.startswith("simplicity::"):
             continue
+        # private helpers shared by the work-stack functions (`inject_left(results, ty)`) are spliced into their callers
+        f = F.inlined(f0, STACK_VOCAB) if f0.kind in ("Fn", "AssocFn") and f0.path.startswith("simplicity::value::") else f0
         calls = [cs for cs in f.calls() if cs.callee in (VALUE + "left", VALUE + "right")]
         if not calls:
             continue
@@ -529,9 +535,9 @@ def lifo(F, rep):
     for f0 in sorted(F.fns.values(), key=lambda x: x.path):
         if not f0.path.startswith("simplicity::value::") or f0.kind == "Closure":
             continue
-        if not any(cs.callee == VALUE + "product" for cs in f0.calls()):
+        f = F.inlined(f0, STACK_VOCAB)
+        if not any(cs.callee == VALUE + "product" for cs in f.calls()):
             continue
-        f = F.inlined(f0, ("product", "left", "right", "pop", "push", "as_product", "as_left", "as_right", "bound"))
         T = Terms(f)
         T.site_names = {"pop"}
         for cs in f.calls():
@@ -797,6 +803,7 @@ def typedirected(F, rep):
         if f is None:
             rep.anchor("C10.typedir", "Value::" + nm)
             continue
+        f = F.inlined(f, STACK_VOCAB)
         T = Terms(f)
         names = f.param_names()
         if tyname not in names:
